@@ -1,1 +1,764 @@
-(* stub: to be written by group Etrade *)
+(* Proofs about the E*TRADE matching model (Model/Etrade.v): property C19. *)
+From Coq Require Import List NArith ZArith QArith Qcanon Bool Lia Permutation Sorted.
+From ACB Require Import Base.Outcome Base.QcExtra Base.Fit Base.Arith Model.Etrade Proofs.Tactics.
+Import ListNotations.
+Local Open Scope Z_scope.
+
+(* ======================================================================
+   1. Sub-lists (subsequences)                                              *)
+Inductive subseq {T} : list T -> list T -> Prop :=
+| ss_nil : subseq [] []
+| ss_skip x l m : subseq m l -> subseq m (x :: l)
+| ss_take x l m : subseq m l -> subseq (x :: m) (x :: l).
+
+Lemma subseq_nil_l {T} (l : list T) : subseq [] l.
+Proof. induction l; constructor; assumption. Qed.
+
+Lemma subseq_refl {T} (l : list T) : subseq l l.
+Proof. induction l; constructor; assumption. Qed.
+
+Lemma subseq_In {T} (m l : list T) x : subseq m l -> In x m -> In x l.
+Proof.
+  induction 1 as [|y l m Hs IH|y l m Hs IH]; cbn; intros Hin; auto.
+  destruct Hin as [->|Hin]; auto.
+Qed.
+
+Lemma subseq_trans {T} (a b c : list T) : subseq a b -> subseq b c -> subseq a c.
+Proof.
+  intros Hab Hbc. revert a Hab.
+  induction Hbc as [|x l m Hs IH|x l m Hs IH]; intros a Hab.
+  - exact Hab.
+  - constructor. apply IH; exact Hab.
+  - inversion Hab as [|y l' m' Hs'|y l' m' Hs']; subst.
+    + constructor. apply IH; assumption.
+    + apply ss_take. apply IH; assumption.
+Qed.
+
+Lemma subseq_filter {T} (p : T -> bool) (l : list T) : subseq (filter p l) l.
+Proof.
+  induction l as [|x l IH]; cbn; [constructor|].
+  destruct (p x); constructor; exact IH.
+Qed.
+
+Lemma subseq_map {T U} (f : T -> U) (m l : list T) : subseq m l -> subseq (map f m) (map f l).
+Proof. induction 1; cbn; constructor; assumption. Qed.
+
+Lemma subseq_cons_map {T} (x : T) (cs : list (list T)) (l : list T) :
+  Forall (fun c => subseq c l) cs -> Forall (fun c => subseq c (x :: l)) (map (cons x) cs).
+Proof.
+  intros H. apply Forall_forall. intros c Hc. apply in_map_iff in Hc.
+  destruct Hc as [c' [<- Hc']]. apply ss_take. rewrite Forall_forall in H. auto.
+Qed.
+
+(* ======================================================================
+   2. Combinations                                                          *)
+Lemma combs_spec {T} (l : list T) : forall n c, In c (combs n l) -> subseq c l /\ length c = n.
+Proof.
+  induction l as [|x r IH]; intros n c Hin.
+  - destruct n; cbn in Hin.
+    + destruct Hin as [<-|[]]. split; [constructor | reflexivity].
+    + destruct Hin.
+  - destruct n as [|k]; cbn [combs] in Hin.
+    + destruct Hin as [<-|[]]. split; [apply subseq_nil_l | reflexivity].
+    + apply in_app_or in Hin. destruct Hin as [Hin|Hin].
+      * apply in_map_iff in Hin. destruct Hin as [c' [<- Hc']].
+        destruct (IH k c' Hc') as [Hs Hl]. split; [apply ss_take; exact Hs | cbn; lia].
+      * destruct (IH (S k) c Hin) as [Hs Hl]. split; [apply ss_skip; exact Hs | exact Hl].
+Qed.
+
+Lemma all_combos_spec {T} (l : list T) c : In c (all_combos l) -> subseq c l /\ c <> [].
+Proof.
+  unfold all_combos. intros Hin. apply in_flat_map in Hin.
+  destruct Hin as [n [Hn Hc]]. apply in_rev in Hn. apply in_seq in Hn.
+  destruct (combs_spec l n c Hc) as [Hs Hl]. split; [exact Hs|].
+  intros ->. cbn in Hl. lia.
+Qed.
+
+(* The search space is exponential: 2^n - 1 candidate sets for n candidate
+   trades (every non-empty sub-list is enumerated once). *)
+Fixpoint sum1 {T} (n : nat) (l : list T) : nat :=
+  match n with O => O | S k => (sum1 k l + length (combs (S k) l))%nat end.
+
+Lemma combs_0_length {T} (l : list T) : length (combs 0 l) = 1%nat.
+Proof. destruct l; reflexivity. Qed.
+
+Lemma combs_S_nil {T} k : @combs T (S k) [] = [].
+Proof. reflexivity. Qed.
+
+Lemma combs_S_cons_length {T} k (x : T) r :
+  length (combs (S k) (x :: r)) = (length (combs k r) + length (combs (S k) r))%nat.
+Proof. cbn [combs]. rewrite app_length, map_length. reflexivity. Qed.
+
+Lemma sum1_nil {T} n : @sum1 T n [] = 0%nat.
+Proof. induction n; cbn [sum1]; [reflexivity|]. rewrite IHn. reflexivity. Qed.
+
+Lemma sum1_cons {T} n (x : T) r :
+  (1 + sum1 (S n) (x :: r) = (1 + sum1 n r) + (1 + sum1 (S n) r))%nat.
+Proof.
+  induction n as [|n IH].
+  - cbn [sum1]. rewrite combs_S_cons_length, combs_0_length. lia.
+  - change (sum1 (S (S n)) (x :: r)) with (sum1 (S n) (x :: r) + length (combs (S (S n)) (x :: r)))%nat.
+    change (sum1 (S (S n)) r) with (sum1 (S n) r + length (combs (S (S n)) r))%nat.
+    rewrite combs_S_cons_length.
+    change (sum1 (S n) r) with (sum1 n r + length (combs (S n) r))%nat in *.
+    lia.
+Qed.
+
+Lemma sum1_pow {T} (l : list T) : forall n, (length l <= n)%nat -> (1 + sum1 n l = 2 ^ length l)%nat.
+Proof.
+  induction l as [|x r IH]; intros n Hn.
+  - rewrite sum1_nil. reflexivity.
+  - destruct n as [|n]; [cbn in Hn; lia|]. cbn [length] in Hn.
+    rewrite sum1_cons. rewrite (IH n) by lia. rewrite (IH (S n)) by lia.
+    cbn [length]. rewrite Nat.pow_succ_r'. lia.
+Qed.
+
+Lemma flat_map_length_seq {T} (l : list T) n :
+  length (flat_map (fun k => combs k l) (seq 1 n)) = sum1 n l.
+Proof.
+  induction n as [|n IH]; [reflexivity|].
+  rewrite seq_S, flat_map_app, app_length, IH. cbn [flat_map sum1]. rewrite app_nil_r.
+  reflexivity.
+Qed.
+
+Lemma all_combos_length {T} (l : list T) : (length (all_combos l) = 2 ^ length l - 1)%nat.
+Proof.
+  unfold all_combos.
+  assert (H : Permutation (flat_map (fun k => combs k l) (rev (seq 1 (length l))))
+                          (flat_map (fun k => combs k l) (seq 1 (length l)))).
+  { apply Permutation_flat_map. apply Permutation_sym, Permutation_rev. }
+  rewrite (Permutation_length H), flat_map_length_seq.
+  pose proof (sum1_pow l (length l) (le_n _)). lia.
+Qed.
+
+(* ======================================================================
+   3. Stable insertion sort                                                 *)
+Lemma insert_by_perm {T} (le : T -> T -> bool) x l : Permutation (insert_by le x l) (x :: l).
+Proof.
+  induction l as [|y r IH]; cbn; [reflexivity|].
+  destruct (le x y); [reflexivity|].
+  rewrite IH. apply perm_swap.
+Qed.
+
+Lemma sort_by_perm {T} (le : T -> T -> bool) l : Permutation (sort_by le l) l.
+Proof.
+  induction l as [|x r IH]; cbn; [reflexivity|].
+  unfold sort_by in IH. rewrite insert_by_perm. constructor. exact IH.
+Qed.
+
+Lemma sort_by_In {T} (le : T -> T -> bool) l x : In x (sort_by le l) <-> In x l.
+Proof.
+  split; apply Permutation_in; [apply sort_by_perm | apply Permutation_sym, sort_by_perm].
+Qed.
+
+Section SortSorted.
+  Context {T : Type} (le : T -> T -> bool).
+  Hypothesis le_total : forall x y, le x y = true \/ le y x = true.
+  Hypothesis le_trans : forall x y z, le x y = true -> le y z = true -> le x z = true.
+
+  Lemma insert_by_sorted x l :
+    StronglySorted (fun a b => le a b = true) l ->
+    StronglySorted (fun a b => le a b = true) (insert_by le x l).
+  Proof.
+    induction 1 as [|y r Hs IH Hall]; cbn.
+    - constructor; constructor.
+    - destruct (le x y) eqn:E.
+      + constructor; [constructor; assumption|].
+        constructor; [exact E|].
+        rewrite Forall_forall in *. intros z Hz. eapply le_trans; [exact E | auto].
+      + constructor; [exact IH|].
+        rewrite Forall_forall in *. intros z Hz.
+        apply (Permutation_in _ (insert_by_perm le x r)) in Hz. destruct Hz as [<-|Hz]; auto.
+        destruct (le_total x y) as [H|H]; [congruence | exact H].
+  Qed.
+
+  Lemma sort_by_sorted l : StronglySorted (fun a b => le a b = true) (sort_by le l).
+  Proof.
+    induction l as [|x r IH]; cbn; [constructor|].
+    apply insert_by_sorted. exact IH.
+  Qed.
+End SortSorted.
+
+(* sorting an already strictly increasing list of indices changes nothing *)
+Lemma sort_idx_subseq n : forall i js, subseq js (seq i n) -> sort_by nat_leb_pair js = js.
+Proof.
+  induction n as [|n IH]; intros i js Hs; cbn [seq] in Hs.
+  - inversion Hs; subst. reflexivity.
+  - inversion Hs as [|x l m Hs'|x l m Hs']; subst.
+    + eapply IH; eassumption.
+    + cbn [sort_by fold_right]. fold (sort_by nat_leb_pair m). rewrite (IH (S i) m Hs').
+      destruct m as [|j m']; [reflexivity|].
+      assert (Hj : In j (seq (S i) n)) by (eapply subseq_In; [exact Hs' | left; reflexivity]).
+      apply in_seq in Hj. cbn [insert_by]. unfold nat_leb_pair.
+      destruct (Nat.leb_spec i j); [reflexivity | lia].
+Qed.
+
+(* ======================================================================
+   4. Tagged lists and removal by index                                     *)
+Lemma tag_from_cons {T} i (x : T) l : tag_from i (x :: l) = (i, x) :: tag_from (S i) l.
+Proof. reflexivity. Qed.
+
+Lemma tag_from_fst {T} (l : list T) : forall i, map fst (tag_from i l) = seq i (length l).
+Proof. induction l as [|x r IH]; intros i; [reflexivity|]. rewrite tag_from_cons. cbn. rewrite IH. reflexivity. Qed.
+
+Lemma tag_from_snd {T} (l : list T) : forall i, map snd (tag_from i l) = l.
+Proof. induction l as [|x r IH]; intros i; [reflexivity|]. rewrite tag_from_cons. cbn. rewrite IH. reflexivity. Qed.
+
+Lemma tag_from_ge {T} (l : list T) : forall i it, In it (tag_from i l) -> (i <= fst it)%nat.
+Proof.
+  intros i it Hin. apply (in_map fst) in Hin. rewrite tag_from_fst in Hin. apply in_seq in Hin. lia.
+Qed.
+
+Lemma remove_all_app {T} (a b : list nat) (l : list T) :
+  remove_all (a ++ b) l = (l' <- remove_all a l ;; remove_all b l').
+Proof.
+  revert l. induction a as [|i a IH]; intros l; cbn [app remove_all]; [reflexivity|].
+  destruct (remove_at i l) as [l'| |]; cbn [bind]; [apply IH | reflexivity | reflexivity].
+Qed.
+
+Lemma remove_all_map_S {T} (js : list nat) (x : T) : forall l l',
+  remove_all js l = Ok l' -> remove_all (map S js) (x :: l) = Ok (x :: l').
+Proof.
+  induction js as [|j js IH]; intros l l' H; cbn [map remove_all] in *.
+  - inversion H; subst. reflexivity.
+  - bind_as H as l1 E1. cbn [remove_at]. rewrite E1. cbn [bind]. apply IH. exact H.
+Qed.
+
+Lemma map_sub_S {T} (m : list (nat * T)) i :
+  (forall it, In it m -> (S i <= fst it)%nat) ->
+  map (fun it => (fst it - i)%nat) m = map S (map (fun it => (fst it - S i)%nat) m).
+Proof.
+  intros H. rewrite map_map. apply map_ext_in. intros it Hin. specialize (H it Hin). lia.
+Qed.
+
+(* Removing, from the highest index down, the positions of a sub-list of the
+   tagged pool removes exactly that sub-list. *)
+Lemma remove_subseq {T} (l : list T) : forall i (m : list (nat * T)),
+  subseq m (tag_from i l) ->
+  exists l', remove_all (rev (map (fun it => (fst it - i)%nat) m)) l = Ok l'
+             /\ Permutation l (map snd m ++ l') /\ subseq l' l.
+Proof.
+  induction l as [|x r IH]; intros i m Hs.
+  - cbn in Hs. inversion Hs; subst. exists []. cbn. repeat split; constructor.
+  - rewrite tag_from_cons in Hs. inversion Hs as [|y l0 m0 Hs'|y l0 m0 Hs']; subst.
+    + destruct (IH (S i) m Hs') as [l' [Hr [Hp Hsub]]].
+      exists (x :: l'). split; [|split].
+      * rewrite (map_sub_S m i).
+        -- rewrite <- map_rev. apply remove_all_map_S. exact Hr.
+        -- intros it Hin. apply (tag_from_ge r (S i)). eapply subseq_In; eassumption.
+      * rewrite Hp. apply Permutation_middle.
+      * apply ss_take. exact Hsub.
+    + destruct (IH (S i) m0 Hs') as [l' [Hr [Hp Hsub]]].
+      exists l'. split; [|split].
+      * cbn [map rev fst]. rewrite Nat.sub_diag. rewrite remove_all_app.
+        rewrite (map_sub_S m0 i).
+        -- rewrite <- map_rev. rewrite (remove_all_map_S _ x r l' Hr). cbn [bind remove_all remove_at]. reflexivity.
+        -- intros it Hin. apply (tag_from_ge r (S i)). eapply subseq_In; eassumption.
+      * cbn [map snd app]. constructor. exact Hp.
+      * apply ss_skip. exact Hsub.
+Qed.
+
+Lemma remove_matched {T} (l : list T) (m : list (nat * T)) :
+  subseq m (tag l) ->
+  exists l', remove_all (rev (sort_by nat_leb_pair (map fst m))) l = Ok l'
+             /\ Permutation l (map snd m ++ l') /\ subseq l' l.
+Proof.
+  intros Hs. unfold tag in Hs.
+  assert (Hsort : sort_by nat_leb_pair (map fst m) = map fst m).
+  { apply (sort_idx_subseq (length l) 0). rewrite <- tag_from_fst. apply subseq_map. exact Hs. }
+  rewrite Hsort. destruct (remove_subseq l 0 m Hs) as [l' [Hr H]].
+  exists l'. split; [|exact H].
+  rewrite <- Hr. f_equal. f_equal. apply map_ext. intros it. lia.
+Qed.
+
+(* ======================================================================
+   5. find_sell_to_cover_trade_set                                          *)
+Definition eligible (b : benefit) (t : trade) : Prop :=
+  t_sec t = b_sec b /\ t_act t = ASell /\ b_date b <= t_td t <= b_date b + 5.
+
+Lemma in_window_true b it :
+  in_window b it = true -> t_act (snd it) = ASell /\ b_date b <= t_td (snd it) <= b_date b + 5.
+Proof.
+  unfold in_window. rewrite !andb_true_iff, !Z.leb_le. intros [[Ha H1] H2].
+  split; [|lia]. destruct (t_act (snd it)); [discriminate | reflexivity].
+Qed.
+
+Lemma same_security_true b (c : list itrade) :
+  same_security b c = true -> Forall (fun it => t_sec (snd it) = b_sec b) c.
+Proof.
+  unfold same_security. rewrite forallb_forall, Forall_forall. intros H it Hin.
+  apply N.eqb_eq. apply H. exact Hin.
+Qed.
+
+Section WithA.
+Variable A : arith.
+
+Lemma matching_combos_spec b sh : forall cs ms,
+  matching_combos A b sh cs = Ok ms ->
+  forall m, In m ms ->
+    In m cs /\ same_security b m = true /\ sum_shares A (trades_of m) = Ok sh.
+Proof.
+  induction cs as [|c r IH]; intros ms H m Hin; cbn [matching_combos] in H.
+  - inversion H; subst. destruct Hin.
+  - destruct (same_security b c) eqn:Es.
+    + bind_as H as n En. bind_as H as rest Er. inversion H; subst ms; clear H.
+      destruct (Qceqb_spec n sh) as [->|Hne].
+      * destruct Hin as [<-|Hin].
+        -- split; [left; reflexivity|]. split; assumption.
+        -- destruct (IH rest eq_refl m Hin) as [H1 H2]. split; [right; exact H1 | exact H2].
+      * destruct (IH rest eq_refl m Hin) as [H1 H2]. split; [right; exact H1 | exact H2].
+    + destruct (IH ms H m Hin) as [H1 H2]. split; [right; exact H1 | exact H2].
+Qed.
+
+Lemma score_spec b c d c' :
+  score A b c = Ok (d, c') -> c' = c /\ (b_stc_price b = None -> d = dec_max).
+Proof.
+  unfold score. intros H. bind_as H as tv E1. bind_as H as tsh E2. bind_as H as avg E3.
+  destruct (b_stc_price b) as [p|].
+  - bind_as H as dd E4. inversion H; subst. split; [reflexivity | discriminate].
+  - inversion H; subst. split; reflexivity.
+Qed.
+
+Lemma map_res_score_spec b : forall ms scored,
+  map_res (score A b) ms = Ok scored ->
+  forall d m, In (d, m) scored -> In m ms /\ (b_stc_price b = None -> d = dec_max).
+Proof.
+  induction ms as [|c r IH]; intros scored H d m Hin; cbn [map_res] in H.
+  - inversion H; subst. destruct Hin.
+  - bind_as H as y Ey. bind_as H as ys Eys. inversion H; subst scored; clear H.
+    destruct Hin as [->|Hin].
+    + apply score_spec in Ey. destruct Ey as [-> Hd]. split; [left; reflexivity | exact Hd].
+    + destruct (IH ys eq_refl d m Hin) as [H1 H2]. split; [right; exact H1 | exact H2].
+Qed.
+
+Lemma find_found b sh cands m :
+  find_sell_to_cover_trade_set A b sh cands = Ok (Found m) ->
+  subseq m cands /\ m <> [] /\ same_security b m = true /\ sum_shares A (trades_of m) = Ok sh.
+Proof.
+  unfold find_sell_to_cover_trade_set. intros H. bind_as H as ms Em.
+  assert (Hall : forall x, In x ms -> subseq x cands /\ x <> [] /\ same_security b x = true
+                                      /\ sum_shares A (trades_of x) = Ok sh).
+  { intros x Hx. destruct (matching_combos_spec b sh _ _ Em x Hx) as [H1 [H2 H3]].
+    destruct (all_combos_spec cands x H1) as [H4 H5]. auto. }
+  destruct ms as [|m1 [|m2 ms']].
+  - discriminate H.
+  - inversion H; subst. apply Hall. left; reflexivity.
+  - bind_as H as scored Esc.
+    destruct (sort_by score_le scored) as [|[d m'] rest] eqn:Es; [discriminate H|].
+    destruct (Qceqb d dec_max); inversion H; subst m'; clear H.
+    assert (Hin : In (d, m) scored).
+    { apply (sort_by_In score_le). rewrite Es. left; reflexivity. }
+    destruct (map_res_score_spec b _ _ Esc d m Hin) as [Hm _]. apply Hall. exact Hm.
+Qed.
+
+(* Not a guess: without a sale price to compare with, a set is returned only
+   when it is the only set of candidate trades that adds up. *)
+Lemma find_noprice_unique b sh cands m :
+  b_stc_price b = None ->
+  find_sell_to_cover_trade_set A b sh cands = Ok (Found m) ->
+  matching_combos A b sh (all_combos cands) = Ok [m].
+Proof.
+  unfold find_sell_to_cover_trade_set. intros Hp H. bind_as H as ms Em.
+  destruct ms as [|m1 [|m2 ms']].
+  - discriminate H.
+  - inversion H; subst. reflexivity.
+  - exfalso. bind_as H as scored Esc.
+    destruct (sort_by score_le scored) as [|[d m'] rest] eqn:Es; [discriminate H|].
+    assert (Hin : In (d, m') scored).
+    { apply (sort_by_In score_le). rewrite Es. left; reflexivity. }
+    destruct (map_res_score_spec b _ _ Esc d m' Hin) as [_ Hd]. rewrite (Hd Hp) in H.
+    destruct (Qceqb_spec dec_max dec_max) as [_|Hne]; [discriminate H | apply Hne; reflexivity].
+Qed.
+
+(* ======================================================================
+   6. amend_benefit_sales                                                   *)
+Definition amend_b (b : benefit) (m : list trade) : benefit :=
+  match b_stc_shares b, m with
+  | Some _, t0 :: _ => set_stc_dates b (t_td t0) (t_sd t0)
+  | _, _ => b
+  end.
+
+Definition matched_ok (b : benefit) (m : list trade) : Prop :=
+  match b_stc_shares b with
+  | None => m = []
+  | Some sh => m <> [] /\ Forall (eligible b) m /\ sum_shares A m = Ok sh
+  end.
+
+Lemma found_eligible b sh left m :
+  find_sell_to_cover_trade_set A b sh (candidates b left) = Ok (Found m) ->
+  subseq m (tag left) /\ m <> [] /\ Forall (eligible b) (trades_of m)
+  /\ sum_shares A (trades_of m) = Ok sh.
+Proof.
+  intros H. destruct (find_found _ _ _ _ H) as [Hs [Hne [Hsec Hsum]]].
+  split; [|split; [exact Hne|split; [|exact Hsum]]].
+  - eapply subseq_trans; [exact Hs | apply subseq_filter].
+  - apply same_security_true in Hsec. unfold trades_of. rewrite Forall_forall in *.
+    intros t Ht. apply in_map_iff in Ht. destruct Ht as [it [<- Hit]].
+    assert (Hw : in_window b it = true).
+    { pose proof (subseq_In _ _ it Hs Hit) as Hc. unfold candidates in Hc.
+      apply filter_In in Hc. apply Hc. }
+    apply in_window_true in Hw. unfold eligible. split; [apply Hsec; exact Hit | exact Hw].
+Qed.
+
+Lemma amend_loop_spec : forall bs i left am,
+  amend_loop A i bs left = Ok am ->
+  length (am_matched am) = length bs
+  /\ Permutation left (concat (am_matched am) ++ am_left am)
+  /\ subseq (am_left am) left
+  /\ Forall (fun m => subseq m left) (am_matched am)
+  /\ am_benefits am = map (fun bm => amend_b (fst bm) (snd bm)) (combine bs (am_matched am))
+  /\ (am_errs am = [] -> Forall2 matched_ok bs (am_matched am)).
+Proof.
+  induction bs as [|b r IH]; intros i left am H; cbn [amend_loop] in H.
+  - inversion H; subst am; clear H. cbn.
+    repeat split; try constructor; try apply subseq_refl; try reflexivity.
+  - destruct (b_stc_shares b) as [sh|] eqn:Esh.
+    + bind_as H as f Ef. destruct f as [m|e].
+      * destruct m as [|[i0 t0] m'] eqn:Em; [discriminate H|]. rewrite <- Em in *.
+        destruct (found_eligible _ _ _ _ Ef) as [Hs [Hne [Hel Hsum]]].
+        destruct (remove_matched left m Hs) as [l' [Hr [Hp Hsub]]].
+        rewrite Hr in H. cbn [bind] in H. bind_as H as rr Err. inversion H; subst am; clear H.
+        destruct (IH _ _ _ Err) as [H1 [H2 [H3 [H4 [H5 H6]]]]].
+        cbn [am_cons am_matched am_left am_benefits am_errs].
+        assert (Hsm : subseq (trades_of m) left).
+        { unfold trades_of. rewrite <- (tag_from_snd left 0). apply subseq_map. exact Hs. }
+        split; [cbn [length]; congruence|].
+        split; [cbn [concat]; rewrite <- app_assoc; rewrite Hp; apply Permutation_app_head; exact H2|].
+        split; [eapply subseq_trans; eassumption|].
+        split; [constructor; [exact Hsm|]; eapply Forall_impl; [|exact H4];
+                intros x Hx; cbn beta in Hx; eapply subseq_trans; eassumption|].
+        split.
+        -- cbn [combine map fst snd]. rewrite H5. f_equal.
+           unfold amend_b. rewrite Esh. rewrite Em. reflexivity.
+        -- cbn [app]. intros He. constructor; [|apply H6; exact He].
+           unfold matched_ok. rewrite Esh. split; [|split; assumption].
+           rewrite Em. discriminate.
+      * bind_as H as rr Err. inversion H; subst am; clear H.
+        destruct (IH _ _ _ Err) as [H1 [H2 [H3 [H4 [H5 H6]]]]].
+        cbn [am_cons am_matched am_left am_benefits am_errs].
+        split; [cbn [length]; congruence|].
+        split; [cbn [concat app]; exact H2|].
+        split; [exact H3|].
+        split; [constructor; [apply subseq_nil_l | exact H4]|].
+        split.
+        -- cbn [combine map fst snd]. rewrite H5. f_equal. unfold amend_b. rewrite Esh. reflexivity.
+        -- cbn [app]. discriminate.
+    + bind_as H as rr Err. inversion H; subst am; clear H.
+      destruct (IH _ _ _ Err) as [H1 [H2 [H3 [H4 [H5 H6]]]]].
+      cbn [am_cons am_matched am_left am_benefits am_errs].
+      split; [cbn [length]; congruence|].
+      split; [cbn [concat app]; exact H2|].
+      split; [exact H3|].
+      split; [constructor; [apply subseq_nil_l | exact H4]|].
+      split.
+      * cbn [combine map fst snd]. rewrite H5. f_equal. unfold amend_b. rewrite Esh. reflexivity.
+      * cbn [app]. intros He. constructor; [|apply H6; exact He].
+        unfold matched_ok. rewrite Esh. reflexivity.
+Qed.
+
+(* ======================================================================
+   7. txs_from_data                                                         *)
+(* The rows a benefit contributes, given the trades consumed by it. *)
+Definition spec_rows_of (b : benefit) (m : list trade) : list rowc :=
+  buy_core b ::
+  match b_stc_shares b, b_stc_price b, b_stc_fee b, m with
+  | Some sh, Some p, Some f, t0 :: _ =>
+      [{| c_sec := b_sec b; c_td := t_td t0; c_sd := t_sd t0; c_act := ASell; c_shares := sh;
+          c_price := p; c_comm := f; c_memo := MemoPlanSell (b_note b) (b_sell_note b) |}]
+  | _, _, _, _ => []
+  end.
+
+(* what an accepted benefit looks like: sold shares come with price and fee;
+   no sold shares means no sell-to-cover field at all *)
+Definition stc_complete (b : benefit) : Prop :=
+  match b_stc_shares b with
+  | Some _ => b_stc_price b <> None /\ b_stc_fee b <> None
+  | None => b_stc_td b = None /\ b_stc_sd b = None /\ b_stc_price b = None /\ b_stc_fee b = None
+  end.
+
+Lemma benefit_rows_spec : forall bms i rows,
+  Forall (fun bm => matched_ok (fst bm) (snd bm)) bms ->
+  benefit_rows i (map (fun bm => amend_b (fst bm) (snd bm)) bms) = Ok rows ->
+  map r_core rows = flat_map (fun bm => spec_rows_of (fst bm) (snd bm)) bms
+  /\ Forall stc_complete (map fst bms).
+Proof.
+  induction bms as [|[b m] r IH]; intros i rows Hok H; cbn [map benefit_rows fst snd] in H.
+  - inversion H; subst. split; [reflexivity | constructor].
+  - inversion Hok as [|x l Hb Hr]; subst. cbn [fst snd] in Hb.
+    bind_as H as s Es. bind_as H as rest Er. inversion H; subst rows; clear H.
+    destruct (IH _ _ Hr Er) as [IH1 IH2].
+    cbn [flat_map map fst snd]. unfold matched_ok in Hb. unfold spec_rows_of, stc_complete.
+    unfold amend_b in Es. destruct (b_stc_shares b) as [sh|] eqn:Esh.
+    + destruct Hb as [Hne [Hel Hsum]]. destruct m as [|t0 m']; [contradiction|].
+      unfold sell_to_cover_data in Es. cbn [set_stc_dates b_stc_td b_stc_sd b_stc_price b_stc_shares b_stc_fee] in Es.
+      rewrite Esh in Es.
+      destruct (b_stc_price b) as [p|] eqn:Ep; destruct (b_stc_fee b) as [f|] eqn:Efee;
+        try discriminate Es.
+      inversion Es; subst s; clear Es.
+      split.
+      * cbn [map app r_core]. rewrite IH1. unfold amend_b. rewrite Esh. reflexivity.
+      * constructor; [|exact IH2]. cbn [fst]. rewrite Esh. split; congruence.
+    + subst m. unfold sell_to_cover_data in Es. rewrite Esh in Es.
+      destruct (b_stc_td b) eqn:E1; destruct (b_stc_sd b) eqn:E2; destruct (b_stc_price b) eqn:E3;
+        destruct (b_stc_fee b) eqn:E4; try discriminate Es.
+      inversion Es; subst s; clear Es.
+      split.
+      * cbn [map app r_core]. rewrite IH1. unfold amend_b. rewrite Esh. reflexivity.
+      * constructor; [|exact IH2]. cbn [fst]. rewrite Esh. auto.
+Qed.
+
+End WithA.
+
+Lemma manual_rows_core : forall ts base, map r_core (manual_rows base ts) = map manual_core ts.
+Proof. induction ts as [|t r IH]; intros base; cbn; [reflexivity|]. rewrite IH. reflexivity. Qed.
+
+Lemma row_le_iff x y :
+  row_le x y = true <->
+  (c_sd (r_core x) < c_sd (r_core y)
+   \/ (c_sd (r_core x) = c_sd (r_core y) /\ (r_ri x <= r_ri y)%nat)).
+Proof.
+  unfold row_le. rewrite orb_true_iff, andb_true_iff, Z.ltb_lt, Z.eqb_eq, Nat.leb_le. reflexivity.
+Qed.
+
+Lemma row_le_total x y : row_le x y = true \/ row_le y x = true.
+Proof. rewrite !row_le_iff. lia. Qed.
+
+Lemma row_le_trans x y z : row_le x y = true -> row_le y z = true -> row_le x z = true.
+Proof. rewrite !row_le_iff. lia. Qed.
+
+Lemma StronglySorted_weaken {T} (R S : T -> T -> Prop) (l : list T) :
+  (forall x y, R x y -> S x y) -> StronglySorted R l -> StronglySorted S l.
+Proof.
+  intros H. induction 1 as [|x l Hs IH Hall]; constructor; [exact IH|].
+  eapply Forall_impl; [|exact Hall]. intros y. apply H.
+Qed.
+
+Lemma Forall2_combine {T U} (P : T -> U -> Prop) l1 l2 :
+  Forall2 P l1 l2 -> Forall (fun p => P (fst p) (snd p)) (combine l1 l2).
+Proof. induction 1; cbn; constructor; assumption. Qed.
+
+Lemma map_fst_combine {T U} : forall (l1 : list T) (l2 : list U),
+  length l2 = length l1 -> map fst (combine l1 l2) = l1.
+Proof.
+  induction l1 as [|x r IH]; intros l2 H; [reflexivity|].
+  destruct l2 as [|y l2]; [discriminate H|]. cbn. rewrite IH; [reflexivity | cbn in H; lia].
+Qed.
+
+Lemma Forall2_In_l {T U} (P : T -> U -> Prop) l1 l2 x :
+  Forall2 P l1 l2 -> In x l1 -> exists y, In y l2 /\ P x y.
+Proof.
+  induction 1 as [|a b l1 l2 Hab Hf IH]; intros Hin; [destruct Hin|].
+  destruct Hin as [->|Hin].
+  - exists b. split; [left; reflexivity | exact Hab].
+  - destruct (IH Hin) as [y [Hy Hp]]. exists y. split; [right; exact Hy | exact Hp].
+Qed.
+
+(* ======================================================================
+   8. The whole run                                                         *)
+Definition sorted_by_settlement (rows : list row) : Prop :=
+  StronglySorted (fun x y => c_sd (r_core x) <= c_sd (r_core y)) rows.
+
+Theorem extract_structure : forall A bs ts rows,
+  extract A bs ts = Ok rows ->
+  exists (ms : list (list trade)) (left : list trade),
+    length ms = length bs
+    /\ Permutation ts (concat ms ++ left)
+    /\ Forall (fun m => subseq m ts) ms /\ subseq left ts
+    /\ Forall2 (matched_ok A) bs ms
+    /\ Forall stc_complete bs
+    /\ Permutation (map r_core rows)
+         (flat_map (fun bm => spec_rows_of (fst bm) (snd bm)) (combine bs ms) ++ map manual_core left)
+    /\ sorted_by_settlement rows.
+Proof.
+  intros A bs ts rows H. unfold extract, amend_benefit_sales in H. bind_as H as am Eam.
+  destruct (amend_loop_spec A _ _ _ _ Eam) as [H1 [H2 [H3 [H4 [H5 H6]]]]].
+  destruct (am_errs am) as [|e es] eqn:Ee; [|discriminate H].
+  specialize (H6 eq_refl).
+  unfold txs_from_data in H. bind_as H as brs Eb. inversion H; subst rows; clear H.
+  rewrite H5 in Eb.
+  destruct (benefit_rows_spec A _ _ _ (Forall2_combine _ _ _ H6) Eb) as [Hc Hcomp].
+  rewrite (map_fst_combine bs (am_matched am) H1) in Hcomp.
+  exists (am_matched am), (am_left am).
+  repeat split; try assumption.
+  - rewrite (sort_by_perm row_le). rewrite map_app, manual_rows_core, Hc. reflexivity.
+  - unfold sorted_by_settlement.
+    eapply StronglySorted_weaken; [|apply (sort_by_sorted row_le row_le_total row_le_trans)].
+    intros x y Hxy. cbn beta in Hxy. apply row_le_iff in Hxy. lia.
+Qed.
+
+(* ---- corollaries used by Properties/C19.v ---- *)
+Definition is_plan_buy (c : rowc) : bool :=
+  match c_act c, c_memo c with ABuy, MemoPlan _ => true | _, _ => false end.
+
+Lemma filter_perm {T} (p : T -> bool) (l l' : list T) :
+  Permutation l l' -> Permutation (filter p l) (filter p l').
+Proof.
+  induction 1 as [|x l l' Hp IH|x y l|l l' l'' H1 IH1 H2 IH2]; cbn.
+  - constructor.
+  - destruct (p x); [constructor|]; exact IH.
+  - destruct (p x), (p y); try reflexivity. apply perm_swap.
+  - etransitivity; eassumption.
+Qed.
+
+Lemma filter_plan_buy_spec : forall bms : list (benefit * list trade),
+  filter is_plan_buy (flat_map (fun bm => spec_rows_of (fst bm) (snd bm)) bms) = map (fun bm => buy_core (fst bm)) bms.
+Proof.
+  induction bms as [|[b m] r IH]; [reflexivity|].
+  cbn [flat_map map fst snd]. rewrite filter_app, IH. unfold spec_rows_of.
+  destruct (b_stc_shares b), (b_stc_price b), (b_stc_fee b), m; reflexivity.
+Qed.
+
+Lemma filter_plan_buy_manual (l : list trade) : filter is_plan_buy (map manual_core l) = [].
+Proof.
+  induction l as [|t r IH]; [reflexivity|]. cbn [map filter]. rewrite IH.
+  unfold is_plan_buy, manual_core. cbn. destruct (t_act t); reflexivity.
+Qed.
+
+Theorem each_benefit_one_buy : forall A bs ts rows,
+  extract A bs ts = Ok rows ->
+  Permutation (filter is_plan_buy (map r_core rows)) (map buy_core bs).
+Proof.
+  intros A bs ts rows H.
+  destruct (extract_structure A bs ts rows H) as [ms [left [Hl [_ [_ [_ [_ [_ [Hp _]]]]]]]]].
+  rewrite (filter_perm is_plan_buy _ _ Hp), filter_app, filter_plan_buy_spec, filter_plan_buy_manual, app_nil_r.
+  rewrite <- (map_map fst buy_core), (map_fst_combine bs ms Hl). reflexivity.
+Qed.
+
+Theorem unmatched_is_error : forall A bs ts b sh,
+  In b bs -> b_stc_shares b = Some sh ->
+  (forall m, subseq m ts -> m <> [] -> Forall (eligible b) m -> sum_shares A m <> Ok sh) ->
+  forall rows, extract A bs ts <> Ok rows.
+Proof.
+  intros A bs ts b sh Hin Hsh Hno rows H.
+  destruct (extract_structure A bs ts rows H) as [ms [left [_ [_ [Hsub [_ [Hok _]]]]]]].
+  destruct (Forall2_In_l _ _ _ b Hok Hin) as [m [Hm Hmo]].
+  unfold matched_ok in Hmo. rewrite Hsh in Hmo. destruct Hmo as [Hne [Hel Hsum]].
+  rewrite Forall_forall in Hsub. apply (Hno m (Hsub m Hm) Hne Hel Hsum).
+Qed.
+
+Definition wf_benefit (b : benefit) : Prop :=
+  (0 < b_shares b)%Qc /\ (0 <= b_price b)%Qc
+  /\ (forall sh, b_stc_shares b = Some sh -> (0 < sh)%Qc)
+  /\ (forall p, b_stc_price b = Some p -> (0 <= p)%Qc)
+  /\ (forall f, b_stc_fee b = Some f -> (0 <= f)%Qc).
+Definition wf_trade (t : trade) : Prop :=
+  (0 < t_shares t)%Qc /\ (0 <= t_price t)%Qc /\ (0 <= t_comm t)%Qc.
+
+Lemma accepts_intro c :
+  (0 < c_shares c)%Qc -> (0 <= c_price c)%Qc -> (0 <= c_comm c)%Qc -> acb_accepts c = true.
+Proof.
+  intros H1 H2 H3. unfold acb_accepts. rewrite !andb_true_iff.
+  repeat split; [apply Qcltb_true | apply Qcleb_true | apply Qcleb_true]; assumption.
+Qed.
+
+Theorem accepted_by_acb : forall A bs ts rows,
+  Forall wf_benefit bs -> Forall wf_trade ts ->
+  extract A bs ts = Ok rows ->
+  Forall (fun r => acb_accepts (r_core r) = true) rows.
+Proof.
+  intros A bs ts rows Hwb Hwt H.
+  destruct (extract_structure A bs ts rows H) as [ms [left [Hl [_ [_ [Hleft [_ [_ [Hp _]]]]]]]]].
+  assert (Hall : Forall (fun c => acb_accepts c = true) (map r_core rows)).
+  { eapply Permutation_Forall; [apply Permutation_sym; exact Hp|].
+    apply Forall_app. split; apply Forall_forall; intros c Hc.
+    - apply in_flat_map in Hc. destruct Hc as [[b m] [Hbm Hc]]. cbn [fst snd] in Hc.
+      apply in_combine_l in Hbm. rewrite Forall_forall in Hwb.
+      destruct (Hwb b Hbm) as [W1 [W2 [W3 [W4 W5]]]].
+      unfold spec_rows_of in Hc. destruct Hc as [<-|Hc].
+      + apply accepts_intro; cbn; [exact W1 | exact W2 | apply Qcle_refl].
+      + destruct (b_stc_shares b) as [sh|]; [|destruct Hc].
+        destruct (b_stc_price b) as [p|]; [|destruct Hc].
+        destruct (b_stc_fee b) as [f|]; [|destruct Hc].
+        destruct m as [|t0 m']; [destruct Hc|]. destruct Hc as [<-|[]].
+        apply accepts_intro; cbn; auto.
+    - apply in_map_iff in Hc. destruct Hc as [t [<- Ht]].
+      rewrite Forall_forall in Hwt. destruct (Hwt t (subseq_In _ _ t Hleft Ht)) as [W1 [W2 W3]].
+      apply accepts_intro; cbn; assumption. }
+  rewrite Forall_forall in *. intros r Hr. apply Hall. apply in_map. exact Hr.
+Qed.
+
+(* ======================================================================
+   9. rust_decimal sums of whole share counts are exact
+   Trade confirmations state whole share counts (the layouts read \d+): as long
+   as the total stays below 2^96 the sum computed with [dec] is the true sum,
+   so "share counts adding up to the sold shares" in matched_ok dec is meant
+   literally.                                                               *)
+Lemma Qred_int n : Qred (n # 1) = (n # 1)%Q.
+Proof.
+  unfold Qred.
+  pose proof (Z.ggcd_gcd n 1) as Hg. pose proof (Z.ggcd_correct_divisors n 1) as Hd.
+  destruct (Z.ggcd n 1) as [g [aa bb]]. cbn [fst snd] in *.
+  rewrite Z.gcd_1_r in Hg. subst g. destruct Hd as [Ha Hb].
+  rewrite Z.mul_1_l in Ha, Hb. subst aa bb. reflexivity.
+Qed.
+
+Lemma this_Qcfrac_int n : this (Qcfrac n 1) = (n # 1)%Q.
+Proof. unfold Qcfrac, Q2Qc. cbn [this]. apply Qred_int. Qed.
+
+Lemma Qcfrac_scale n (p : positive) : Qcfrac (n * Zpos p) p = Qcfrac n 1.
+Proof. unfold Qcfrac. apply Q2Qc_eq_iff. unfold Qeq. cbn [Qnum Qden]. lia. Qed.
+
+Lemma Qcfrac_int_add a b : (Qcfrac a 1 + Qcfrac b 1)%Qc = Qcfrac (a + b) 1.
+Proof.
+  unfold Qcplus. rewrite !this_Qcfrac_int. unfold Qcfrac. apply Q2Qc_eq_iff.
+  unfold Qeq, Qplus. cbn [Qnum Qden]. lia.
+Qed.
+
+Lemma rhe_1 k : rhe k 1 = k.
+Proof.
+  unfold rhe. rewrite Z.div_1_r, Z.mod_1_r. cbn. reflexivity.
+Qed.
+
+Lemma fit_from_int n : Z.abs n <= max_mant -> forall s, fit_from s n 1 = Some (Qcfrac n 1).
+Proof.
+  intros Hn. induction s as [|s IH].
+  - cbn [fit_from p10]. rewrite rhe_1, Z.mul_1_r.
+    destruct (Z.leb_spec (Z.abs n) max_mant); [reflexivity | lia].
+  - cbn [fit_from]. rewrite rhe_1.
+    destruct (Z.leb (Z.abs (n * Zpos (p10 (S s)))) max_mant).
+    + rewrite Qcfrac_scale. reflexivity.
+    + exact IH.
+Qed.
+
+Lemma fit_int n : Z.abs n <= max_mant -> fit (Qcfrac n 1) = Some (Qcfrac n 1).
+Proof.
+  intros Hn. unfold fit. rewrite this_Qcfrac_int. cbn [Qnum Qden]. apply fit_from_int. exact Hn.
+Qed.
+
+Definition whole_shares (t : trade) (z : Z) : Prop := 0 <= z /\ t_shares t = Qcfrac z 1.
+Definition zsum (zs : list Z) : Z := fold_right Z.add 0 zs.
+
+Lemma zsum_nonneg ts zs : Forall2 whole_shares ts zs -> 0 <= zsum zs.
+Proof. induction 1 as [|t z ts zs [Hz _] Hf IH]; unfold zsum in *; cbn [fold_right]; lia. Qed.
+
+Lemma sum_from_whole_dec : forall ts zs a,
+  0 <= a -> Forall2 whole_shares ts zs -> a + zsum zs <= max_mant ->
+  sum_from dec (fun t => Ok (t_shares t)) ts (Qcfrac a 1) = Ok (Qcfrac (a + zsum zs) 1).
+Proof.
+  intros ts zs a Ha Hf. revert a Ha.
+  induction Hf as [|t z ts zs [Hz Ht] Hf IH]; intros a Ha Hmax; cbn [sum_from zsum fold_right bind].
+  - rewrite Z.add_0_r. reflexivity.
+  - pose proof (zsum_nonneg _ _ Hf) as Hr. fold (zsum zs) in *.
+    cbn [a_add dec]. rewrite Ht, Qcfrac_int_add. unfold fit_res.
+    rewrite fit_int by lia. cbn [bind]. rewrite IH by lia. f_equal. f_equal. lia.
+Qed.
+
+Lemma sum_from_whole_exact : forall ts zs a,
+  Forall2 whole_shares ts zs ->
+  sum_from exact (fun t => Ok (t_shares t)) ts (Qcfrac a 1) = Ok (Qcfrac (a + zsum zs) 1).
+Proof.
+  intros ts zs a Hf. revert a.
+  induction Hf as [|t z ts zs [Hz Ht] Hf IH]; intros a; cbn [sum_from zsum fold_right bind].
+  - rewrite Z.add_0_r. reflexivity.
+  - fold (zsum zs). cbn [a_add exact bind]. rewrite Ht, Qcfrac_int_add, IH. f_equal. f_equal. lia.
+Qed.
+
+Theorem dec_sum_whole_shares_exact : forall ts zs,
+  Forall2 whole_shares ts zs -> zsum zs <= max_mant ->
+  sum_shares dec ts = Ok (Qcfrac (zsum zs) 1) /\ sum_shares exact ts = sum_shares dec ts.
+Proof.
+  intros ts zs Hf Hmax. unfold sum_shares.
+  change 0%Qc with (Qcfrac 0 1).
+  rewrite (sum_from_whole_dec ts zs 0) by (try lia; assumption).
+  rewrite (sum_from_whole_exact ts zs 0 Hf). split; reflexivity.
+Qed.
